@@ -28,8 +28,10 @@ FNS = ["ProofCommitment<C>::generate", "ProofCommitment<C>::finalize", "ProofOfK
 def run(ctx):
     P = ctx.P
     fns = [f for f in (ctx.need_fn("E2-A", k) for k in FNS) if f is not None]
-    n, _ = check_arm_purity(ctx, "E2-A", P, fns)
-    ctx.floor("E2-A", "scheme dispatch switches in the proof-of-knowledge wrappers", n, 8)
+    from .common import with_mappers, check_dispatching
+
+    check_arm_purity(ctx, "E2-A", P, with_mappers(P, fns))
+    check_dispatching(ctx, "E2-A", P, fns)
     # finalize: only diagonal pairs reach generate_proof
     f = P.fns.get("ProofCommitment<C>::finalize")
     if f is not None:
